@@ -11,6 +11,7 @@ pub const ONEOFF: u64 = 1_000_000_000;
 
 pub struct W {
     pub no_oneoff: bool,
+    pub stack_mb: usize,
     pub prop: String,
     pub tier: String,
     pub seed: u64,
@@ -82,7 +83,8 @@ pub fn main(args: &[String]) {
     let corpus = crate::corpus::load();
     let thorough = tier == "thorough";
     let no_oneoff = args.iter().any(|a| a == "--no-oneoff");
-    let mut w = W { no_oneoff, rep: Report::new(&prop, &tier, seed, shard, nshards), prop: prop.clone(), tier, seed, shard, nshards, cases, start, only, progress, transcript, pools: Pools::new(), corpus, thorough };
+    let stack_mb: usize = arg(args, "--stack-mb").and_then(|s| s.parse().ok()).unwrap_or(2);
+    let mut w = W { no_oneoff, stack_mb, rep: Report::new(&prop, &tier, seed, shard, nshards), prop: prop.clone(), tier, seed, shard, nshards, cases, start, only, progress, transcript, pools: Pools::new(), corpus, thorough };
     let t0 = std::time::Instant::now();
     crate::props::dispatch(&mut w);
     w.rep.extra.insert("wall_s".into(), json!(t0.elapsed().as_secs_f64()));
